@@ -219,6 +219,7 @@ type Native struct {
 	Model any // independent deep copy, modified in step with Live by harness mutations only
 	Op    string
 	Deep  bool // produced by NativeSlice/NativeDict: must not contain containers
+	Frozen bool // shares structure inside itself: watched, never modified by the harness
 }
 
 // Hist is the state of one history run.
